@@ -188,6 +188,19 @@ def cull_rules(rep, prog):
     back_e = G.variant_edges(prog, rn, sl, inner, FC, "Back")
     front_e = G.variant_edges(prog, rn, sl, inner, FC, "Front")
     rep.floor("C07.F3.arms", min(len(some_e), len(none_e), len(back_e), len(front_e)), 1, "face_cull None/Some/Back/Front edges")
+    # F3c: with culling off EVERY clipped triangle is rasterised: from the None arm no path reaches the next iteration (or the
+    # return) without passing tri_fill — face culling is the only reason a triangle may be dropped after clipping
+    rets = G.return_blocks(rn)
+    skip = False
+    for (_s, dst, _l) in none_e:
+        r = rn.reachable(dst, removed_edges=(set(back_e) | set(front_e)) - set(none_e), removed_blocks=set(fills), unwind=False)
+        if any(h in r for h in heads) or any(x in r for x in rets):
+            skip = True
+    rep.inst("C07.F3", "with face_cull = None every path from the cull decision to the next triangle passes tri_fill: %s" % (not skip), config=cfg)
+    if skip:
+        rep.violate("C07.F3", "F3|None/dropped", rn.where(),
+                    "with face_cull = None a clipped triangle can reach the next iteration without being handed to tri_fill: something other than face culling drops triangles",
+                    config=cfg)
     rep.floor("C07.F3.is_backface", len(bf_edges), 1, "branches on is_backface()")
 
     def fill_reach(start_edges, removed):
